@@ -10,12 +10,19 @@ from props import logix_common as L, enip_common as E
 
 def seg_py(s):
     p, l = s
-    return {'port': p, 'link': l if isinstance(l, int) else '.'.join(map(str, l))}
+    return {'port': p, 'link': l if isinstance(l, (int, str)) else '.'.join(map(str, l))}
 
 
 def enc_seg(s):
+    """link: int = numeric, 4-tuple = dotted quad, str = any other address string as the port segment carries it"""
     p, l = s
+    if isinstance(l, str):
+        return [p, 2, int.from_bytes(b'\x01' + l.encode('latin-1'), 'big'), 0, 0, 0]
     return [p, 0, l, 0, 0, 0] if isinstance(l, int) else [p, 1] + list(l)
+
+
+# request route paths whose link is an address STRING that merely spells a configured number (or nearly a configured address)
+TEXT_LINK_PATHS = [[(1, '0')], [(1, '00')], [(1, ' 0')], [(1, '1')], [(2, '1.2.3.4x')], [(1, '0'), (2, 5)], [(3, '7')], [(1, '0'), (2, '5')], [(16, '200')]]
 
 
 def enc_opath(p):
@@ -34,6 +41,76 @@ def text_of(path):
     return '/'.join('%d/%s' % (p, l if isinstance(l, int) else '.'.join(map(str, l))) for p, l in path)
 
 
+def client_to_configured_device(ctx):
+    """End to end with cpppo's own client: a simulator configured --route-path 1/0 over TCP; lists of writes, each to its own element
+    with its own value and its own per-operation route path (absent, the configured one, others), issued unbundled and bundled.
+    A write whose route path the device must refuse must never land (whatever the client did with it); the writes the device must
+    accept that precede the first refusal must land.  -> list of problems"""
+    import socket, subprocess, sys, time
+    from cpppo.server.enip import client
+    s = socket.socket(); s.bind(('127.0.0.1', 0)); port = s.getsockname()[1]; s.close()
+    proc = subprocess.Popen([sys.executable, '-m', 'cpppo.server.enip', '--no-udp', '-a', '127.0.0.1:%d' % port, '--route-path', '1/0', 'T=DINT[12]'],
+                            stdout=subprocess.DEVNULL, stderr=subprocess.DEVNULL, cwd='/')
+    problems = []
+    try:
+        for _ in range(150):
+            try:
+                c = socket.create_connection(('127.0.0.1', port), timeout=0.5); c.close(); break
+            except OSError:
+                time.sleep(0.1)
+        else:
+            raise core.HarnessError('configured simulator did not start')
+        good = [None, [{'port': 1, 'link': 0}]]
+        other = [[{'port': 1, 'link': 1}], [{'port': 2, 'link': 0}], [{'port': 2, 'link': '1.2.3.4'}], [{'port': 1, 'link': 0}, {'port': 2, 'link': 5}]]
+        rng = ctx.rng
+        serial = [0]
+        for rnd in range(10 if ctx.thorough else 4):
+            for multiple in (0, 500):
+                n = rng.randrange(3, 9)
+                routes = [rng.choice(good) if rng.random() < 0.6 else rng.choice(other) for _ in range(n)]
+                if all(r in good for r in routes):
+                    routes[rng.randrange(1, n)] = rng.choice(other)
+                serial[0] += 1
+                vals = [serial[0] * 100 + i for i in range(n)]
+                ops = []
+                for i, r in enumerate(routes):
+                    op = dict(path=[{'symbolic': 'T'}, {'element': i}], elements=1, tag_type=196, data=[vals[i]], method='write')
+                    if r is not None:
+                        op['route_path'] = r
+                    ops.append(op)
+                try:
+                    conn = client.connector(host='127.0.0.1', port=port, timeout=3)
+                    try:
+                        with conn:
+                            list(conn.operate(ops, depth=2, multiple=multiple, timeout=3))
+                    finally:
+                        conn.close()
+                except Exception:
+                    pass
+                with client.connector(host='127.0.0.1', port=port, timeout=3) as rd:
+                    now = None
+                    for _i, _d, _q, _r, sts, val in rd.operate(list(client.parse_operations(['T[0-11]'])), depth=0, timeout=3):
+                        now = list(val) if val else None
+                if now is None:
+                    problems.append('read-back failed'); return problems
+                first_bad = next(i for i, r in enumerate(routes) if r not in good)
+                w = dict(multiple=multiple, routes=routes, values=vals, tag_after=now)
+                for i, r in enumerate(routes):
+                    if r not in good and now[i] == vals[i]:
+                        problems.append(dict(w, problem='write #%d carried route path %r, which a device configured 1/0 must refuse, yet it landed' % (i, r)))
+                        return problems
+                    if r in good and i < first_bad and now[i] != vals[i]:
+                        problems.append(dict(w, problem='write #%d (acceptable route path, before any refusal) did not land' % i))
+                        return problems
+        return problems
+    finally:
+        proc.terminate()
+        try:
+            proc.wait(5)
+        except Exception:
+            proc.kill()
+
+
 def run(ctx):
     ctx.prove()
     E.quiet()
@@ -42,7 +119,7 @@ def run(ctx):
     rng = ctx.rng
     paths = gen_paths(rng)
     cfgs = [None, 'simple-false', []] + paths
-    rps = [None, []] + paths
+    rps = [None, []] + paths + TEXT_LINK_PATHS
     tags = [dict(name='A', ty='INT', scalar=False, n=4, addr=None, init=[('i', 1), ('i', 2), ('i', 3), ('i', 4)]),
             dict(name='B', ty='DINT', scalar=False, n=2, addr=(0x99, 1, 2), init=[('i', 7), ('i', 8)])]
     reqs = [('read', ('sym', 'A', 1), 2), ('readf', ('sym', 'b', None), 2, 0), ('write', ('sym', 'A', 0), 195, 2, [('i', 9), ('i', 8)]),
@@ -106,6 +183,9 @@ def run(ctx):
             ndis += 1
             first = first or dict(configured=cfg, request_route_path=rp, request=L.describe_req(q), impl=repr(o), model=repr(m),
                                   store_hash_equal=h == mh)
+    for pm in client_to_configured_device(ctx)[:2]:
+        nbad += 1
+        ctx.violation(dict(scenario='cpppo client -> TCP -> simulator --route-path 1/0', detail=pm), 'client to configured device: %s' % (pm['problem'] if isinstance(pm, dict) else pm))
     # textual route paths
     texts = []
     for p in paths + [[(1, 0), (2, 5), (3, (10, 0, 0, 1)), (4, 4)]]:
